@@ -52,7 +52,12 @@ type runner struct {
 	done, canc, nerr map[int]int
 	failed           map[string]bool
 	receivedOrder    []int
-	liveAtDup        bool
+	// dupLive: request-id indexes the script re-used while a response with that id was LIVE for the
+	// SAME peer (the known findings dup-live-id / dup-live-id-queue are about exactly these ids and
+	// about exactly the failure modes listed at dupClass); foreignNew: `new` requests whose id was live
+	// for ANOTHER peer at that moment (the responder ignores those, /repo 7d665e5)
+	dupLive    map[int]bool
+	foreignNew map[int]int
 	sawMgrBlockedOn  int // peer the manager was seen blocked on (stack evidence), -1
 	lastBlockedPeer  int
 	sig              map[int]int // id index -> signalling ops since the executor's last signal check
@@ -595,11 +600,13 @@ func (r *runner) quiescentWorkers() bool {
 func (r *runner) checkAgree(p int, ps peerstate.PeerState) {
 	if d := ps.Diagnostics(); len(d) > 0 {
 		var msgs []string
+		var ids []int
 		for id, m := range d {
 			msgs = append(msgs, fmt.Sprintf("r%d: %s", r.e.idIndex(id), strings.Join(m, "; ")))
+			ids = append(ids, r.e.idIndex(id))
 		}
 		sort.Strings(msgs)
-		r.fail(r.dupClass("diagnostics"), "peer %d: PeerState.Diagnostics() not empty at a quiescent barrier: %s", p, strings.Join(msgs, " | "))
+		r.fail(r.dupClass("diagnostics", ids...), "peer %d: PeerState.Diagnostics() not empty at a quiescent barrier: %s", p, strings.Join(msgs, " | "))
 	}
 	act := map[graphsync.RequestID]bool{}
 	pend := map[graphsync.RequestID]bool{}
@@ -626,56 +633,64 @@ func (r *runner) checkAgree(p int, ps peerstate.PeerState) {
 			}
 		}
 		if bad != "" {
-			r.fail(r.dupClass("state-queue-mismatch"), "peer %d request r%d: %s (state %s)", p, r.e.idIndex(id), bad, stName(st))
+			r.fail(r.dupClass("state-queue-mismatch", r.e.idIndex(id)), "peer %d request r%d: %s (state %s)", p, r.e.idIndex(id), bad, stName(st))
 		}
 	}
 	for id := range act {
 		if _, ok := ps.RequestStates[id]; !ok {
-			r.fail(r.dupClass("state-queue-mismatch"), "peer %d: active task r%d has no request state", p, r.e.idIndex(id))
+			r.fail("state-queue-mismatch", "peer %d: active task r%d has no request state", p, r.e.idIndex(id))
 		}
 	}
 	for id := range pend {
 		if _, ok := ps.RequestStates[id]; !ok {
-			r.fail(r.dupClass("state-queue-mismatch"), "peer %d: pending task r%d has no request state", p, r.e.idIndex(id))
+			r.fail("state-queue-mismatch", "peer %d: pending task r%d has no request state", p, r.e.idIndex(id))
 		}
 	}
 }
 
-// failures that arise after the script re-used a live request id get their own classes
-// (`dup-live-id` for the C05 observables, `dup-live-id-queue` for the C23 ones)
-func (r *runner) dupClass(c string) string {
-	if r.liveAtDup {
-		switch c {
-		case "diagnostics", "state-queue-mismatch", "stats-nonzero":
-			return "dup-live-id-queue"
+// The known findings dup-live-id (C05) and dup-live-id-queue (C23) cover a `new` request that re-uses
+// the id of a response that is live for the same peer, and only these consequences for THAT id:
+//   - Protect is issued twice for (peer, id)                          (mode "protect-unbalanced")
+//   - fewer outcomes than requests are reported for the id           (mode "fewer-outcomes")
+//   - the task queue merged / skipped the task: PeerState.Diagnostics / state-queue agreement
+//     complain about that id                                          (modes "diagnostics", "state-queue-mismatch")
+// Every other failure mode, and every other request of the case, keeps its normal class.
+func (r *runner) dupClass(c string, ids ...int) string {
+	normal := c
+	if c == "fewer-outcomes" {
+		normal = "outcome-none"
+	}
+	if len(ids) == 0 {
+		return normal
+	}
+	for _, id := range ids {
+		if !r.dupLive[id] {
+			return normal
 		}
+	}
+	switch c {
+	case "diagnostics", "state-queue-mismatch":
+		return "dup-live-id-queue"
+	case "protect-unbalanced", "fewer-outcomes":
 		return "dup-live-id"
 	}
-	return c
+	return normal
 }
 
 func (r *runner) checkOutcomesSafety() {
-	for id := range r.e.received {
-		if r.done[id] > 1 {
-			r.fail(r.dupClass("completed-twice"), "request r%d reported to completed listeners %d times", id, r.done[id])
+	for id, n := range r.e.received {
+		// an id that was received n times (re-used after retirement, or while live) may legitimately be
+		// completed / cancelled once per request
+		if r.done[id] > n {
+			r.fail("completed-twice", "request r%d (received %d time(s)) reported to completed listeners %d times", id, n, r.done[id])
 		}
-		if r.canc[id] > 1 {
-			r.fail(r.dupClass("cancelled-twice"), "request r%d reported to cancelled listeners %d times", id, r.canc[id])
+		if r.canc[id] > n {
+			r.fail("cancelled-twice", "request r%d (received %d time(s)) reported to cancelled listeners %d times", id, n, r.canc[id])
 		}
-		classes := 0
-		for _, n := range []int{r.done[id], r.canc[id], r.nerr[id]} {
-			if n > 0 {
-				classes++
-			}
-		}
-		if classes > 1 {
-			// network-error notifications are issued per failed message whatever the state of the
-			// request (known finding); completed AND cancelled would be something else
-			cls := "outcome-multi"
-			if r.nerr[id] > 0 && r.done[id]+r.canc[id] == 1 {
-				cls = "network-error-and-other-outcome"
-			}
-			r.fail(r.dupClass(cls), "request r%d reached more than one outcome: completed=%d cancelled=%d network-error=%d", id, r.done[id], r.canc[id], r.nerr[id])
+		if r.done[id]+r.canc[id]+r.nerr[id] > n {
+			// since /repo e842a00 a failed message is reported to the network-error listeners only
+			// while the response exists, so every request has at most one outcome of any kind
+			r.fail("outcome-multi", "request r%d (received %d time(s)) reached more than one outcome per request: completed=%d cancelled=%d network-error=%d", id, n, r.done[id], r.canc[id], r.nerr[id])
 		}
 	}
 	// Protect / Unprotect alternate per (peer, tag)
@@ -685,7 +700,13 @@ func (r *runner) checkOutcomesSafety() {
 		k := l[1:]
 		if last[k] == l[0] || (last[k] == 0 && l[0] == '-') {
 			r.e.conn.mu.Unlock()
-			r.fail(r.dupClass("protect-unbalanced"), "Protect/Unprotect do not alternate for %s: %v", k, r.e.conn.log)
+			var pp, id int
+			cls := "protect-unbalanced"
+			// two Protects in a row for the tag of an id re-used while live for that peer: known finding
+			if n, _ := fmt.Sscanf(k, "p%d/r%d", &pp, &id); n == 2 && l[0] == '+' {
+				cls = r.dupClass("protect-unbalanced", id)
+			}
+			r.fail(cls, "Protect/Unprotect do not alternate for %s: %v", k, r.e.conn.log)
 			return
 		}
 		last[k] = l[0]
@@ -758,28 +779,23 @@ func (r *runner) opEnd() string {
 	r.out.Cov("end.quiet")
 	// C05: every received request reached exactly one outcome and is fully retired
 	for id, n := range e.received {
-		classes := 0
-		for _, c := range []int{r.done[id], r.canc[id], r.nerr[id]} {
-			if c > 0 {
-				classes++
-			}
-		}
-		if classes == 0 {
-			r.fail(r.dupClass("outcome-none"), "request r%d (received %d time(s)) never reached an outcome although nothing is left to run, send or unpause", id, n)
-		}
-		if n > 1 && r.done[id]+r.canc[id]+min1(r.nerr[id]) < n {
-			r.fail("dup-live-id", "request id r%d was received %d times but only %d outcome(s) were reported", id, n, r.done[id]+r.canc[id]+min1(r.nerr[id]))
+		outcomes := r.done[id] + r.canc[id] + r.nerr[id]
+		if n > 0 && outcomes == 0 {
+			r.fail("outcome-none", "request r%d (received %d time(s)) never reached an outcome although nothing is left to run, send or unpause", id, n)
+		} else if outcomes < n {
+			// fewer outcomes than requests: for an id re-used while live this is the known finding
+			r.fail(r.dupClass("fewer-outcomes", id), "request id r%d was received %d times but only %d outcome(s) were reported", id, n, outcomes)
 		}
 	}
 	if left > 0 {
-		r.fail(r.dupClass("stuck"), "%d request(s) still listed in PeerState although nothing is left to run, send or unpause: %s", left, r.snapshot())
+		r.fail("stuck", "%d request(s) still listed in PeerState although nothing is left to run, send or unpause: %s", left, r.snapshot())
 	}
 	if len(prot) > 0 {
-		r.fail(r.dupClass("protect-leak"), "connection protection not released at the end: %v", prot)
+		r.fail("protect-leak", "connection protection not released at the end: %v", prot)
 	}
 	// C23 final
 	if stats.Active != 0 || stats.Pending != 0 {
-		r.fail(r.dupClass("stats-nonzero"), "all requests ended but task queue Stats() reports active=%d pending=%d", stats.Active, stats.Pending)
+		r.fail("stats-nonzero", "all requests ended but task queue Stats() reports active=%d pending=%d", stats.Active, stats.Pending)
 	}
 	if alloc.TotalAllocatedAllPeers != 0 {
 		r.fail("alloc-nonzero", "all requests ended and every message resolved but the allocator still accounts %d bytes", alloc.TotalAllocatedAllPeers)
@@ -800,7 +816,7 @@ func (r *runner) checkWorkAccounting(pss []peerstate.PeerState, left int) {
 	}
 	st := e.tq.Stats()
 	if left == 0 && (st.Active != 0 || st.Pending != 0) {
-		r.fail(r.dupClass("c21-phantom-active"), "every request is retired and no task worker is running, but the task queue reports active=%d pending=%d", st.Active, st.Pending)
+		r.fail("c21-phantom-active", "every request is retired and no task worker is running, but the task queue reports active=%d pending=%d", st.Active, st.Pending)
 	}
 	if st.Pending > 0 && len(r.blockedAlloc) == 0 && !r.mgrBlocked {
 		for i := 0; i < 8; i++ {
@@ -814,7 +830,7 @@ func (r *runner) checkWorkAccounting(pss []peerstate.PeerState, left int) {
 				}
 			}
 			sort.Strings(ids)
-			r.fail(r.dupClass("c21-never-executed"), "no task worker is running and no peer is frozen, yet the task queue hands out none of its %d pending task(s) %v (active=%d): these requests are never executed", st.Pending, ids, st.Active)
+			r.fail("c21-never-executed", "no task worker is running and no peer is frozen, yet the task queue hands out none of its %d pending task(s) %v (active=%d): these requests are never executed", st.Pending, ids, st.Active)
 		}
 	}
 }
@@ -848,7 +864,7 @@ func runCase(comp string, c reg.Case, out *reg.Out) {
 
 func newRunner(comp string, out *reg.Out) *runner {
 	return &runner{out: out, comp: comp, done: map[int]int{}, canc: map[int]int{}, nerr: map[int]int{}, failed: map[string]bool{},
-		sawMgrBlockedOn: -1, sig: map[int]int{}, pendingClose: map[int]int{}, autoAck: -1}
+		sawMgrBlockedOn: -1, sig: map[int]int{}, pendingClose: map[int]int{}, autoAck: -1, dupLive: map[int]bool{}, foreignNew: map[int]int{}}
 }
 
 func execCase(comp string, c reg.Case, out *reg.Out, autoAck int, baseline *runner) *runner {
@@ -1047,11 +1063,21 @@ func (r *runner) exec(op []string) string {
 		e.mu.Unlock()
 		if e.received[id] > 1 {
 			r.out.Cov("new.dup-id")
-			// is the id live right now?
+			// is the id live right now, and for whom?
 			if !r.mgrBlocked {
-				for _, ps := range r.peerStates() {
+				for q, ps := range r.peerStates() {
 					if _, ok := ps.RequestStates[rid]; ok {
-						r.liveAtDup = true
+						if q == p {
+							r.dupLive[id] = true
+							r.out.Cov("new.dup-live-id-same-peer")
+						} else {
+							// ignored by the responder: not a request it has to answer
+							r.foreignNew[id]++
+							e.mu.Lock()
+							e.received[id]--
+							e.mu.Unlock()
+							r.out.Cov("new.id-live-for-another-peer")
+						}
 					}
 				}
 			}
